@@ -16,7 +16,7 @@ FLOORS = {
               'schedules': 800, 'schedules:broad': 60, 'distinct-interleavings': 700, 'schedules-with-overlap-in-first-use-window': 800,
               'thread-results-judged': 4000, 'feature:after-failed-call': 1500, 'feature:after-abandoned-generator': 1000,
               'feature:indenter-after-DedentError': 50, 'feature:indenter-after-abandoned-block': 50,
-              'feature:other-instance-built-between': 300, 'feature:op:scan': 500, 'feature:op:interactive': 500, 'feature:op:lex': 800},
+              'feature:other-instance-built-between': 300, 'feature:instance-from-the-same-Grammar-object-built-between': 150, 'feature:op:scan': 500, 'feature:op:interactive': 500, 'feature:op:lex': 800},
     'thorough-unused': {'distinct_nontrivial': 50000, 'schedules': 40000, 'distinct-interleavings': 35000, 'histories': 20000},
 }
 RULE = ("(a) histories: random sequences of parse / lex / scan / parse_interactive calls (succeeding, failing, generators abandoned "
@@ -97,6 +97,11 @@ CONFIGS = {
     'earley-dynamic-explicit': dict(g=G_EXPR, texts=T_EXPR, kw=dict(parser='earley', lexer='dynamic', ambiguity='explicit'), nolex=True),
     'lalr-indenter': dict(g=G_TREE, texts=T_TREE, kw=dict(parser='lalr'), indenter=True, interactive=True),
     'earley-indenter': dict(g=G_TREE, texts=T_TREE, kw=dict(parser='earley', lexer='basic'), indenter=True),
+    # ambiguous, with rule priorities: what "resolve" returns must not depend on other instances compiled from the same Grammar
+    'earley-priorities': dict(g='start: a | b | c\na.2: X+\nb.1: X+ Y?\nc.3: X X\nX: "x"\nY: "y"\n%ignore " "\n', texts=['x', 'x x', 'x x x', 'x y', 'y', '', 'x x y'],
+                              kw=dict(parser='earley', lexer='basic'), sibling=True),
+    'earley-dynamic-priorities': dict(g='start: a | b | c\na.2: X+\nb.1: X+ Y?\nc.3: X X\nX.2: "x"\nY: "y"\n%ignore " "\n', texts=['x', 'x x', 'x x x', 'x y', 'y', '', 'xxy'],
+                                      kw=dict(parser='earley', lexer='dynamic', priority='invert'), nolex=True, sibling=True),
     'cyk': dict(g='start: a+\na: "x" b | "y"\nb: "z" | a a\n%ignore " "\n', texts=['x z', 'y y', 'x y y', 'x', 'x x z z', 'q', ''], kw=dict(parser='cyk')),
 }
 THREAD_CONFIGS = ['lalr-basic', 'lalr-contextual', 'lalr-contextual-list', 'lalr-basic-callbacks', 'lalr-contextual-callbacks', 'earley-basic', 'earley-dynamic']
@@ -172,6 +177,10 @@ def do_op(l, op):
     if kind == 'build-other':
         from lark import Lark
         return canon_any(lambda: (Lark(text, parser=j or 'lalr') and 'built'))
+    if kind == 'build-sibling':
+        # another instance from this instance's own Grammar object (Lark accepts one), with another priority mode
+        from lark import Lark
+        return canon_any(lambda: (Lark(l.grammar, parser='earley', lexer=l.options.lexer, priority=j) and 'built'))
     raise ValueError(kind)
 
 
@@ -183,7 +192,11 @@ def gen_op(rng, c):
         kinds += ['scan'] * 2
     if c.get('interactive'):
         kinds += ['interactive'] * 2
+    if c.get('sibling'):
+        kinds += ['build-sibling'] * 3
     k = rng.choice(kinds)
+    if k == 'build-sibling':
+        return [k, '', rng.choice(['invert', None, 'normal'])]
     if k == 'build-other':
         return [k, rng.choice(OTHER_GRAMMARS), rng.choice(['lalr', 'earley'])]
     text = rng.choice(c['texts'])
@@ -202,6 +215,8 @@ def classify_after(prev_ops, prev_results):
     for op, r in zip(prev_ops, prev_results):
         if op[0] == 'build-other':
             feats.add('other-instance-built-between')
+        elif op[0] == 'build-sibling':
+            feats.add('instance-from-the-same-Grammar-object-built-between')
         elif r[0] == 'exc':
             feats.add('after-failed-call')
             if r[1]['class'] == 'DedentError':
